@@ -8,10 +8,14 @@
                         `f s<hex>`          `.name` of the capture object (null counts as "")
                         `l s.. s.. ; s.. ;` the outputs of the replacement per match, `;` separated
                       -> `ok <wire>` (test: t/f; capture/scan/splits/sub/gsub: array of outputs; split2: the array)
-   stream `str`     : `length s` | `index s i<z>` | `slice s <n|i..> <n|i..>` (start end) |
+   stream `str`     : `length s` | `index s <bound>` | `slice s <bound> <bound>` (start end) |
+                      `aslice <n> <bound> <bound>` (the array [0, …, n-1]) |
                       `indices s s` | `sindex s s` | `srindex s s`   -> `ok <wire>`
+                      bound = `n` (null) | `i<z>` (integer of any magnitude) | `d<16 hex>` / `dNaN` (float64 bits):
+                      a start / index goes through `toInt?`, an end through `toIntCeil?` (Model/Native/Base.lean)
    stream `flags`   : `s<re> s<flags>` -> `ok s<syntax>` | `err` -/
 import Gojq.Model.Regex
+import Gojq.Model.Native.Base
 import Gojq.Model.Wire
 import Driver.Common
 open Gojq Gojq.Wire Gojq.Regex
@@ -38,6 +42,15 @@ def parseOptInt (tok : String) : Option (Option Int) :=
   | ['n'] => some none
   | 'i' :: ds => (String.ofList ds).toInt?.map some
   | _ => none
+
+/-- a slice bound or an index as func.go converts it: `toInt` (start, index) or `toIntCeil` (end) -/
+def parseBound (ceil : Bool) (tok : String) : Option (Option Int) :=
+  match tok.toList with
+  | ['n'] => some none
+  | _ =>
+    match parseVal [tok] with
+    | some (.num n, []) => (if ceil then toIntCeil? (.num n) else toInt? (.num n)).map some
+    | _ => none
 
 def strs (l : List Bytes) : JV := .arr (l.map .str)
 
@@ -102,12 +115,16 @@ def strLine (line : String) : String :=
     | some s => "ok " ++ toWire (jInt (strLength s))
     | none => "?parse"
   | ["index", st, it] =>
-    match parseS st, parseOptInt it with
-    | some s, some (some i) => "ok " ++ toWire (jOptStr (indexStr s (satInt i)))
+    match parseS st, parseBound false it with
+    | some s, some (some i) => "ok " ++ toWire (jOptStr (indexStr s i))
     | _, _ => "?parse"
   | ["slice", st, a, b] =>
-    match parseS st, parseOptInt a, parseOptInt b with
-    | some s, some i, some j => "ok " ++ toWire (.str (sliceStr s (j.map satInt) (i.map satInt)))
+    match parseS st, parseBound false a, parseBound true b with
+    | some s, some i, some j => "ok " ++ toWire (.str (Regex.sliceStr s j i))
+    | _, _, _ => "?parse"
+  | ["aslice", nt, a, b] =>
+    match nt.toNat?, parseBound false a, parseBound true b with
+    | some n, some i, some j => "ok " ++ toWire (.arr ((sliceList (List.range n) j i).map fun (k : Nat) => jInt (k : Int)))
     | _, _, _ => "?parse"
   | [op, st, xt] =>
     match parseS st, parseS xt with
